@@ -34,7 +34,7 @@ ASSUMPTIONS = [
     "the classification of the plain enforcer's methods into mutating / reading / pure (Model/Synced.lean) is trusted for `mutates` and observed at run time for `reads`/`pure` (purity observation on sample enforcers)",
     "the lock is the abstract readers-writer lock (writer alone, readers without writer) that C16 proves RWLockWrite to be; Props/C16 lock_refines_abstract proves that refinement for the counter abstraction of the lock program",
     "results that are live objects (model, role manager, adapter) are compared by identity with what the wrapped method returned, not by content",
-    "the auto-reload thread's timing is not explored; its body goes through the load_policy wrapper (row of the table)",
+    "the auto-reload thread is explored as one more thread executing ONE iteration of its loop (sleep taken out), with a good and with a failing adapter; the timer itself is not",
     "data races inside CPython containers (free-threading) are outside the model: scheduling points are lock operations, call entries and role-manager mutations",
 ]
 TRUSTED_EXTRA = ["translator T2 (tools/translate/t2_synced.py)", "the controlled scheduler (tools/harness/sched.py)"]
@@ -286,7 +286,51 @@ def canon(v):
     return "<" + type(v).__name__ + ">"
 
 
+def _autoload_once(e, failing):
+    """ONE iteration of the auto-reload loop (SyncedEnforcer._auto_load_policy with the sleep taken out), optionally with an
+    adapter that raises during this reload; on a plain Enforcer: load_policy with the exception swallowed (what the loop does)"""
+    ad = e.get_adapter() if not hasattr(e, "_e") else e._e.get_adapter()
+    orig_load = ad.load_policy
+    if failing:
+
+        def boom(model):
+            orig_load(model)
+            raise IOError("adapter failure during the reload")
+
+        ad.load_policy = boom
+    try:
+        if hasattr(e, "_auto_load_policy"):
+            import types
+
+            import casbin.synced_enforcer as sm
+
+            left = [True]
+            orig_running, orig_time = e.is_auto_loading_running, sm.time
+            e.is_auto_loading_running = lambda: left.pop() if left else False
+            sm.time = types.SimpleNamespace(sleep=lambda *_a: None)
+            try:
+                e._auto_load_policy(0)
+            finally:
+                e.is_auto_loading_running, sm.time = orig_running, orig_time
+        else:
+            try:
+                e.load_policy()
+            except Exception:  # noqa
+                pass
+    finally:
+        if failing:
+            ad.load_policy = orig_load
+    return None
+
+
 def call(e, name, args, kwargs):
+    if name in ("autoload_once", "autoload_once_failing"):
+        try:
+            return ("ok", _autoload_once(e, name.endswith("failing")))
+        except S.Abort:
+            raise
+        except Exception as ex:  # noqa
+            return ("exc", type(ex).__name__ + ": " + str(ex)[:100])
     try:
         return ("ok", getattr(e, name)(*args, **kwargs))
     except S.Abort:
@@ -761,6 +805,16 @@ DOM_READS = [
 def gen_program(casbin, rng, whole_api_names, kind="rbac"):
     shape = rng.choice([(1, 1), (1, 2), (2, 1), (2, 2), (1, 1, 1), (1, 3), (2, 1, 1), (3, 1)])
     writes, reads = (CORE_WRITES, CORE_READS) if kind == "rbac" else (DOM_WRITES, DOM_READS)
+    if rng.random() < 0.2:
+        # the auto-reload thread as one more thread: one iteration of its loop, with a good or a failing adapter
+        prog = [[(rng.choice(["autoload_once", "autoload_once_failing"]), [], {})]]
+        for n in rng.choice([(1,), (2,), (1, 1)]):
+            calls = []
+            for _ in range(n):
+                name, args = rng.choice(reads if rng.random() < 0.7 else writes)
+                calls.append((name, list(args), {}))
+            prog.append(calls)
+        return prog
     prog = []
     for n in shape:
         calls = []
